@@ -60,6 +60,15 @@ func (e *Exec) cqSnap(sn *Snap, base *emitted, baseVer int) (string, *emitted) {
 	em := &emitted{sn: sn, labels: map[uint64]string{}}
 	zero := make([]uint64, g.NVox())
 	bSV, bBM := zero, zero
+	hg := g.Half()
+	bLo, bLoM := make([]uint64, hg.NVox()), make([]uint64, hg.NVox())
+	if base != nil && g.Lo {
+		bLo, bLoM = base.sn.LoSV, base.sn.LoMapped
+	}
+	lo, lom := "[]", "[]"
+	if g.Lo {
+		lo, lom = cqBoxes(hg.DiffBoxes(bLo, sn.LoSV)), cqBoxes(hg.DiffBoxes(bLoM, sn.LoMapped))
+	}
 	var bPresent [][3]int
 	var bMappings, bList [][2]uint64
 	var bPts []PtObs
@@ -89,7 +98,7 @@ func (e *Exec) cqSnap(sn *Snap, base *emitted, baseVer int) (string, *emitted) {
 	for i, p := range sn.Pts {
 		pts[i] = fmt.Sprintf("(%s,(%d,%d,%d,%d))", cq3(p.P), p.One, p.OneSV, p.Many, p.ManySV)
 	}
-	s := fmt.Sprintf("(S %d %s %d %s %s %s %s %s [%s] %s %s %s %s)",
+	s := fmt.Sprintf("(S %d %s %d %s %s %s %s %s [%s] %s %s %s %s %s %s)",
 		sn.Ver, baseStr, len(sn.ReadErr),
 		cqDelta(base != nil && fmt.Sprint(bPresent) == fmt.Sprint(sn.Present), cqNs(pres)),
 		cqBoxes(g.DiffBoxes(bSV, sn.SV)), cqBoxes(g.DiffBoxes(sn.SV, sn.RawSV)),
@@ -98,7 +107,7 @@ func (e *Exec) cqSnap(sn *Snap, base *emitted, baseVer int) (string, *emitted) {
 		cqDelta(base != nil && fmt.Sprint(bMappings) == fmt.Sprint(sn.Mappings), cqPairs(sn.Mappings)),
 		cqTri(sn.MaxLabel),
 		cqDelta(base != nil && fmt.Sprint(bList) == fmt.Sprint(sn.ListLabels), cqPairs(sn.ListLabels)),
-		cqDelta(base != nil && fmt.Sprint(bPts) == fmt.Sprint(sn.Pts), "["+strings.Join(pts, ";")+"]"))
+		cqDelta(base != nil && fmt.Sprint(bPts) == fmt.Sprint(sn.Pts), "["+strings.Join(pts, ";")+"]"), lo, lom)
 	return s, em
 }
 
@@ -208,7 +217,7 @@ func (e *Exec) cqHistory() string {
 		steps = append(steps, fmt.Sprintf("(T %s %s %s %s [%s])", e.cqReq(st.Op), lib.CoqBool(st.Resp.OK), cqNs(ret),
 			lib.CoqBool(st.Op.Bad != ""), strings.Join(snaps, ";\n    ")))
 	}
-	return fmt.Sprintf("(H (G %d %s) %s [\n   %s])", g.BS, cq3(g.Dim), cqBoxes(e.h.Layout), strings.Join(steps, ";\n   "))
+	return fmt.Sprintf("(H (G %d %s %s) %s [\n   %s])", g.BS, cq3(g.Dim), lib.CoqBool(g.Lo), cqBoxes(e.h.Layout), strings.Join(steps, ";\n   "))
 }
 
 const header = `From DV Require Import Base.Prelude Model.LabelMapRun.
@@ -249,6 +258,8 @@ func emitRun(o lib.Opts) {
 			}
 		}
 		run.Count(fmt.Sprintf("versions:%d", len(e.uuids)))
+		run.Count(fmt.Sprintf("index-cache:%v", h.Cache))
+		run.Count(fmt.Sprintf("scale-1-observed:%v", h.G.Lo))
 		run.Count(fmt.Sprintf("blocks:%d", h.G.NBlocks()))
 		sort.Strings(kinds)
 		js, _ := json.Marshal(h)
@@ -281,6 +292,7 @@ func emitRun(o lib.Opts) {
 	for k := 0; k < n; k++ {
 		rng := lib.NewRand(master.U64())
 		h := genHistory(rng, k, o.Thorough())
+		h.Cache = k >= n/2 // second half of the run: label-index cache on
 		e, err := newExec(h)
 		if err != nil {
 			fmt.Fprintln(os.Stderr, "setup:", err)
